@@ -96,6 +96,8 @@ pub open spec fn r_max(a: real, b: real) -> real { if a < b { b } else { a } }
 #[verifier::external_body] pub proof fn ax_pythagoras(x: real) ensures r_sin(x) * r_sin(x) + r_cos(x) * r_cos(x) == 1real {}
 #[verifier::external_body] pub proof fn ax_sin_add(x: real, y: real) ensures r_sin(x + y) == r_sin(x) * r_cos(y) + r_cos(x) * r_sin(y) {}
 #[verifier::external_body] pub proof fn ax_cos_add(x: real, y: real) ensures r_cos(x + y) == r_cos(x) * r_cos(y) - r_sin(x) * r_sin(y) {}
+#[verifier::external_body] pub proof fn ax_sin_nonneg(x: real) requires 0real <= x <= r_pi() ensures r_sin(x) >= 0real {}
+#[verifier::external_body] pub proof fn ax_cos_nonneg(x: real) requires 0real - r_pi() / 2real <= x <= r_pi() / 2real ensures r_cos(x) >= 0real {}
 #[verifier::external_body] pub proof fn ax_sin_neg(x: real) ensures r_sin(0real - x) == 0real - r_sin(x) {}
 #[verifier::external_body] pub proof fn ax_cos_neg(x: real) ensures r_cos(0real - x) == r_cos(x) {}
 #[verifier::external_body] pub proof fn ax_trig_values() ensures r_sin(0real) == 0real, r_cos(0real) == 1real, r_sin(r_pi() / 2real) == 1real, r_cos(r_pi() / 2real) == 0real {}
@@ -105,6 +107,7 @@ pub open spec fn r_max(a: real, b: real) -> real { if a < b { b } else { a } }
 #[verifier::external_body] pub proof fn ax_atan(t: real) ensures 0real - r_pi() / 2real < r_atan(t) < r_pi() / 2real, r_tan(r_atan(t)) == t {}
 #[verifier::external_body] pub proof fn ax_atan2(y: real, x: real) ensures 0real - r_pi() <= r_atan2(y, x) <= r_pi(),
     (x != 0real || y != 0real) ==> r_sqrt(x * x + y * y) * r_cos(r_atan2(y, x)) == x && r_sqrt(x * x + y * y) * r_sin(r_atan2(y, x)) == y {}
+#[verifier::external_body] pub proof fn ax_atan2_nonneg(y: real, x: real) requires y >= 0real ensures r_atan2(y, x) >= 0real {}
 #[verifier::external_body] pub proof fn ax_cos_inj(a: real, b: real) requires 0real <= a <= r_pi(), 0real <= b <= r_pi(), r_cos(a) == r_cos(b) ensures a == b {}
 #[verifier::external_body] pub proof fn ax_sin_inj(a: real, b: real) requires 0real - r_pi() / 2real <= a <= r_pi() / 2real, 0real - r_pi() / 2real <= b <= r_pi() / 2real, r_sin(a) == r_sin(b) ensures a == b {}
 #[verifier::external_body] pub proof fn ax_fmod(a: real, m: real) requires m != 0real
